@@ -573,7 +573,7 @@ pub fn main(args: &[String]) -> i32 {
                     }
                 }
             }
-            for size in if thorough { vec![65_535usize, 65_536, 70_000, 140_000, 1_100_000] } else { vec![65_536usize, 70_000] } {
+            for size in if thorough { vec![65_535usize, 65_536, 70_000, 100_000] } else { vec![65_536usize, 70_000] } {
                 for split_at in [0usize, 1, 2] {
                     run += 1;
                     let r = catch(|| rt.block_on(scale_case(run, "bigreply", size, split_at, &mut out)));
